@@ -70,7 +70,7 @@ def summary (s : State) : String :=
       if !x.started then "u" else if x.state = .dead then "d" else toString x.done)
   let ch := String.join ((List.range nPrims).map fun c => if (s.ch c).queue.isEmpty then "1" else "0")
   let sm := String.join ((List.range nPrims).map fun k => if (s.sm k).count = 0 then "0" else "1")
-  s!"P st={st} ch={ch} sm={sm}"
+  s!"P st={st} ch={ch} sm={sm}" ++ (if s.stuck then " cleanup-did-not-terminate" else "")
 
 def parseMain (s : State) (ws : List String) : Option MainOp :=
   match ws with
